@@ -285,13 +285,19 @@ impl GraphState {
             Edit::RemoveEdge { down, up } => {
                 self.edges.remove(&(*down, *up));
             }
+            // the external input exists only for Always jobs (an invariant); for a job that is
+            // currently of another kind the edit is void (keeps shrunk scenarios meaningful)
             Edit::BumpExt { def } => {
-                *self.ext.entry(*def).or_insert(0) += 1;
+                if *def < defs.len() && self.kind_of(defs, *def) == Kind::Always {
+                    *self.ext.entry(*def).or_insert(0) += 1;
+                }
             }
             Edit::RevertExt { def } => {
-                let e = self.ext.entry(*def).or_insert(0);
-                if *e > 0 {
-                    *e -= 1;
+                if *def < defs.len() && self.kind_of(defs, *def) == Kind::Always {
+                    let e = self.ext.entry(*def).or_insert(0);
+                    if *e > 0 {
+                        *e -= 1;
+                    }
                 }
             }
             Edit::DeleteOutput { .. } => {} // handled by the world (disk)
@@ -309,8 +315,13 @@ impl GraphState {
                     }
                 }
             }
+            // Output <-> Ephemeral only (a FileGeneratingJob re-declared as a TempFileGeneratingJob or
+            // back). Always jobs are the invariants: they carry the external input, and turning one
+            // into a file job would change behaviour with no Always job left to report it.
             Edit::SetKind { def, kind } => {
-                self.kind.insert(*def, *kind);
+                if *def < defs.len() && *kind != Kind::Always && self.kind_of(defs, *def) != Kind::Always {
+                    self.kind.insert(*def, *kind);
+                }
             }
         }
     }
